@@ -1,6 +1,8 @@
 package main
 
 import (
+	"context"
+	"time"
 	"bytes"
 	"crypto"
 	"crypto/sha256"
@@ -383,6 +385,7 @@ func c19ChildMain() {
 				call, ret int64
 			}
 			ivs := make([][]iv, g)
+			current := make([]atomic.Value, g) // the call each goroutine is inside, for the no-progress report
 			var wg sync.WaitGroup
 			var mism atomic.Value
 			start := make(chan struct{})
@@ -399,10 +402,12 @@ func c19ChildMain() {
 					for k := 0; k < nops; k++ {
 						oi := rng.Intn(len(o.ops))
 						t0 := atomic.AddInt64(&clock, 1)
+						current[gi].Store(o.ops[oi])
 						var got string
 						if p := tryP(func() { got = target.call(o.ops[oi]) }); p != "" {
 							got = "PANIC " + p
 						}
+						current[gi].Store("")
 						t1 := atomic.AddInt64(&clock, 1)
 						ivs[gi] = append(ivs[gi], iv{oi, t0, t1})
 						if got != base[o.ops[oi]] {
@@ -412,7 +417,32 @@ func c19ChildMain() {
 				}(gi)
 			}
 			close(start)
-			wg.Wait()
+			// wait, watching the logical clock: read-only calls that block each other for good
+			// (no call starts or returns for 60 s) are reported instead of waited for
+			finished := make(chan struct{})
+			go func() { wg.Wait(); close(finished) }()
+			lastTick, idle := atomic.LoadInt64(&clock), 0
+			for waiting := true; waiting; {
+				select {
+				case <-finished:
+					waiting = false
+				case <-time.After(2 * time.Second):
+					if cur := atomic.LoadInt64(&clock); cur != lastTick {
+						lastTick, idle = cur, 0
+					} else if idle++; idle >= 30 {
+						var stuck []string
+						for gi := range current {
+							if s, _ := current[gi].Load().(string); s != "" {
+								stuck = append(stuck, s)
+							}
+						}
+						sort.Strings(stuck)
+						viol("no-progress|%s|%s: %d goroutines on one shared object (GOMAXPROCS %d): no call started or returned for 60 s; calls that never returned: %v", o.kind, strings.Join(stuck, "+"), g, procs, stuck)
+						rep.Rounds++
+						return
+					}
+				}
+			}
 			if m := mism.Load(); m != nil {
 				viol("%s", m.(string))
 			}
@@ -495,7 +525,9 @@ func checkC19(r *mon.Run) {
 	}
 	defer os.RemoveAll(dir)
 	rounds := r.N(12, 300)
-	cmd := exec.Command(raceBin, "-prop", "C19")
+	ctx, cancel := context.WithTimeout(context.Background(), time.Duration(r.N(1800, 7200))*time.Second) // generous watchdog; firing is inconclusive
+	defer cancel()
+	cmd := exec.CommandContext(ctx, raceBin, "-prop", "C19")
 	cmd.Env = append(os.Environ(), "VCHECK_C19_CHILD=1", "VCHECK_CHILD=1", fmt.Sprintf("VCHECK_C19_ROUNDS=%d", rounds),
 		"GORACE=halt_on_error=0 log_path="+filepath.Join(dir, "race")+" history_size=2")
 	var stderr bytes.Buffer
